@@ -91,3 +91,28 @@ From TG.Proofs Require Import SymbolPanicSites.
 Theorem C03_panic_sites_inventoried : all_sites_disposed = true.
 Proof. exact panic_sites_disposed. Qed.
 Print Assumptions C03_panic_sites_inventoried.
+
+(** ---- Core fragment, NO hypothesis on an op log (bridge to the indexer model of group scope) ----
+    For EVERY workspace over the typed Core AST (CoreAst.v), every fuel the model uses and every program -- valid or
+    not --, the symbol-map state [abs (index_ws w)] that the result of the indexer MODEL (Indexer.v over Scope.v, a
+    faithful model of index.rs) stands for (model/IndexerOps.v) satisfies all conclusions of
+    C03_symbol_map_total_partial.  The hypothesis `ops_ids_wf` is discharged by proofs/IndexerValid.v: one Hoare-style
+    traversal of the whole indexer model shows that every id it stores (name maps, scopes, template-argument / field /
+    parent lists, position log, reference log) was allocated before ([index_ws_valid]). *)
+From TG.Model Require CoreAst Scope Indexer IndexerOps.
+From TG.Proofs Require IndexerValid IndexerSim.
+Theorem C03_indexer_ids_valid_core : forall w : CoreAst.workspace, IndexerValid.Valid (Indexer.index_ws w).
+Proof. exact IndexerValid.index_ws_valid. Qed.
+Theorem C03_symbol_map_total_core : forall w : CoreAst.workspace,
+  let S := IndexerOps.abs (Indexer.index_ws w) in
+  (forall f p, exists o, find_symbol_at S f p = SOk o) /\
+  (forall f p, exists o, goto_definition S f p = SOk o) /\
+  (forall f p, exists o, references S f p = SOk o) /\
+  (forall loc, exists o, iter_symbols_in_range S loc = SOk o) /\
+  (forall r n, r < next_id S KRecord -> exists o, find_field (Datatypes.S (length (sm_records S))) S r n = SOk o) /\
+  (forall r other, r < next_id S KRecord -> exists b, is_subclass_of (Datatypes.S (length (sm_records S))) S r other = SOk b) /\
+  (forall r n, r < next_id S KRecord ->
+     (fst (find_field_calls (Datatypes.S (length (sm_records S))) S r n []) <= Datatypes.S (length (sm_records S)))%nat).
+Proof. exact IndexerSim.c03_symbol_map_total_core. Qed.
+Print Assumptions C03_indexer_ids_valid_core.
+Print Assumptions C03_symbol_map_total_core.
